@@ -64,4 +64,47 @@ def ec_scalar_shapes(tier):
     return jobs
 
 
+def run_ec_new_point_c(env, sh):
+    """ec_ws_new_point on concrete candidates around the curve (LLSYM as bounds-checking interpreter): accepted exactly
+    when the textbook curve equation holds (with (0, 0) as the conventional encoding of the neutral element); points with
+    x = 0 or y = 0 and neighbours of valid points included"""
+    from vlib.models import ecref
+    from Crypto.PublicKey import ECC
+    K = kern.kernel(env, EC_UNIT)
+    if env.sym:
+        K.m.step_budget = 80000000
+    name = sh['curve']
+    c = ECC._curves[name]
+    p, b = int(c.p), int(c.b)
+    n = (p.bit_length() + 7) // 8
+    cur = ecref.Curve('ws', name, p, n, b=b, order=int(c.order))
+    G = (int(c.Gx), int(c.Gy))
+    add = lambda A, B: ecref.ws_add(cur, A, B)
+    Q = ecref.generic_smul(add, (0, 0), 7, G)
+    cands = [G, Q, (G[0], (G[1] + 1) % p), ((G[0] + 1) % p, G[1]), (G[0], 0), (Q[0], 0), (0, G[1]), (0, 0), (0, 1), (1, 0), (G[0], p - G[1]), (G[1], G[0]), (p - 1, 0)]
+    if p % 4 == 3:
+        r = pow(b, (p + 1) // 4, p)            # the points with x = 0, when b is a square
+        if r * r % p == b:
+            cands += [(0, r), (0, p - r)]
+    slot = K.ptr_slot()
+    r0 = K.call('ec_ws_new_context', slot, K.buf(p.to_bytes(n, 'big'), False, 'p'), K.buf(b.to_bytes(n, 'big'), False, 'b'),
+                K.buf(int(c.order).to_bytes(n, 'big'), False, 'order'), n, 0x1122334455667788)
+    env.check(r0 == 0, 'context created')
+    ctx = K.deref(slot)
+    for i, (x, y) in enumerate(cands):
+        sl = K.ptr_slot()
+        rr = K.call('ec_ws_new_point', sl, K.buf(x.to_bytes(n, 'big'), False, 'x%d' % i), K.buf(y.to_bytes(n, 'big'), False, 'y%d' % i), n, ctx)
+        want = (x, y) == (0, 0) or ecref.ws_on_curve(cur, x, y)
+        env.check((rr == 0) == want, 'ec_ws_new_point(candidate %d: x %s, y %s) is %s' % (i, 'zero' if x == 0 else 'non-zero', 'zero' if y == 0 else 'non-zero',
+                                                                                      'accepted (on the curve)' if want else 'refused (off the curve)'))
+        if rr == 0:
+            K.call('ec_ws_free_point', K.deref(sl))
+    K.call('ec_ws_free_context', ctx)
+    K.check_memory_safe()
+    env.check(K.live_heap() == [], 'nothing leaks, also on the refusal paths')
+
+
+HARNESS_NEW_POINT = Harness('ec_new_point_c', run_ec_new_point_c, budget_s=900)
+
+
 HARNESS = Harness('ec_scalar_mem', run_ec_scalar_mem, budget_s=900)
